@@ -384,7 +384,7 @@ func c18AtomicSave(e *Env, update *ssa.Function, spec ssa.Value) {
 				// the accumulate-the-first-error style: no single test names the write's
 				// error, but assuming it is not nil the rename cannot be reached
 				if !okAfter {
-					if wc, isC := w.(*ssa.Call); isC && wc.Parent() == rs.Parent() {
+					if wc, isC := w.(*ssa.Call); isC && wc.Parent() == rs.Parent() && ir.Precedes(wc, rs) {
 						for _, ref := range *wc.Referrers() {
 							if ex, isE := ref.(*ssa.Extract); isE && ex.Index == wc.Call.Signature().Results().Len()-1 {
 								if !ir.ReachableAssuming(ex, rs, map[ssa.Value]bool{ex: true}) {
